@@ -37,8 +37,41 @@ std::vector<ComponentPtr>::const_iterator ComponentEntity::ComponentEntityImpl::
 
 std::vector<ComponentPtr>::const_iterator ComponentEntity::ComponentEntityImpl::findComponent(const ComponentPtr &component) const
 {
+    // Prefer the component itself over a structurally equal sibling.
+    auto result = std::find(mComponents.begin(), mComponents.end(), component);
+    if (result != mComponents.end()) {
+        return result;
+    }
     return std::find_if(mComponents.begin(), mComponents.end(),
                         [=](const ComponentPtr &c) -> bool { return c->equals(component); });
+}
+
+/**
+ * @brief Find the entity that lists exactly the given @p component object as a child.
+ *
+ * Looks at @p entity and, if @p searchEncapsulated is @c true, at all of its descendants.
+ *
+ * @return The entity whose children contain @p component (compared by pointer), or @c nullptr.
+ */
+static ComponentEntity *ownerByIdentity(ComponentEntity *entity, const ComponentPtr &component, bool searchEncapsulated)
+{
+    if (component == nullptr) {
+        return nullptr;
+    }
+    for (size_t i = 0; i < entity->componentCount(); ++i) {
+        if (entity->component(i) == component) {
+            return entity;
+        }
+    }
+    if (searchEncapsulated) {
+        for (size_t i = 0; i < entity->componentCount(); ++i) {
+            auto owner = ownerByIdentity(entity->component(i).get(), component, searchEncapsulated);
+            if (owner != nullptr) {
+                return owner;
+            }
+        }
+    }
+    return nullptr;
 }
 
 ComponentEntity::ComponentEntityImpl *ComponentEntity::pFunc()
@@ -104,9 +137,14 @@ bool ComponentEntity::removeComponent(size_t index)
 bool ComponentEntity::removeComponent(const ComponentPtr &component, bool searchEncapsulated)
 {
     bool status = false;
+    // If the component itself is in the searched hierarchy it is the one to remove, whatever it looks like.
+    auto owner = ownerByIdentity(this, component, searchEncapsulated);
+    if ((owner != nullptr) && (owner != this)) {
+        return owner->removeComponent(component, false);
+    }
     auto result = pFunc()->findComponent(component);
     if (result != pFunc()->mComponents.end()) {
-        component->pFunc()->removeParent();
+        (*result)->pFunc()->removeParent();
         pFunc()->mComponents.erase(result);
         status = true;
     } else if (searchEncapsulated) {
@@ -247,6 +285,12 @@ bool ComponentEntity::replaceComponent(const std::string &name, const ComponentP
 
 bool ComponentEntity::replaceComponent(const ComponentPtr &oldComponent, const ComponentPtr &newComponent, bool searchEncapsulated)
 {
+    // If the component itself is in the searched hierarchy it is the one to replace, whatever it looks like.
+    auto owner = ownerByIdentity(this, oldComponent, searchEncapsulated);
+    if ((owner != nullptr) && (owner != this)) {
+        return owner->replaceComponent(oldComponent, newComponent, false);
+    }
+
     bool status = replaceComponent(size_t(pFunc()->findComponent(oldComponent) - pFunc()->mComponents.begin()), newComponent);
 
     if (searchEncapsulated && !status) {
